@@ -439,7 +439,7 @@ func runRepr(c ReprCase, r *runlog.R) error {
 
 var subRepr = runlog.Register(&runlog.Sub[ReprCase]{
 	Name: "repr-roundtrip",
-	Rule: "an option set (no PathSep or one of 37 separators: single characters incl. regexp/printf metacharacters, multi-character and multi-byte ones; EnableNumKeys; MaxIdx 0/1/2/5/4000; StructTag with one of 4 tag names; EscapePath; options in either order) and a random tree (hostile strings, nil, empty containers, keys incl. blank/empty/integer literals, keys holding other separators or parts of the separator, under EscapePath bracketed keys holding the separator) built in 3-4 mixed Go representations (as drawn, generic, 1-2 alternative choice vectors: generic/interface-keyed/named/typed maps, slices, arrays, StructOf structs with typed fields whose keys are spread over tagged fields and inline members (maps of 4 kinds, struct, *struct, nested inline struct, interface{} field), every field tagged under 4 tag names of which only the selected one carries the keys, 1-3 pointer levels, *Config, narrow and named primitive kinds, typed nils); for each: the generic view of NewFrom(repr, options) equals the tree the model computes from T under the options (integer literals are list indices unless numeric keys are enabled or they exceed MaxIdx; brackets of an escaped key may stay or go), also through an interface{}-typed struct field; NewFrom(Dump) has the same generic view and the same hook fingerprint (nil = absent = empty; byte-identical when T has no nil/empty/index keys). Values are not compared when a node has names next to a list part under EnableNumKeys or beyond MaxIdx. Non-trivial: at least 2 different container representations other than the generic map[string]interface{} / []interface{} occur in the case. Distinct: hash of the case.",
+	Rule: "an option set (no PathSep or one of 37 separators: single characters incl. regexp/printf metacharacters, multi-character and multi-byte ones; EnableNumKeys; MaxIdx 0/1/2/5/4000; StructTag with one of 4 tag names; EscapePath; options in either order) and a random tree (hostile strings, nil, empty containers, keys incl. blank/empty/integer literals, keys holding other separators or parts of the separator, bracketed keys holding the separator with and without EscapePath) built in 3-4 mixed Go representations (as drawn, generic, 1-2 alternative choice vectors: generic/interface-keyed/named/typed maps, slices, arrays, StructOf structs with typed fields whose keys are spread over tagged fields and inline members (maps of 4 kinds, struct, *struct, nested inline struct, interface{} field), every field tagged under 4 tag names of which only the selected one carries the keys - or, for one-letter keys, no tag and the upper-cased key as Go field name -, 1-3 pointer levels, *Config, narrow and named primitive kinds, typed nils); for each: the generic view of NewFrom(repr, options) equals the tree the model computes from T under the options (integer literals are list indices unless numeric keys are enabled or they exceed MaxIdx; brackets of an escaped key may stay or go), also through an interface{}-typed struct field; NewFrom(Dump) has the same generic view and the same hook fingerprint (nil = absent = empty; byte-identical when T has no nil/empty/index keys). Values are not compared when a node has names next to a list part under EnableNumKeys or beyond MaxIdx. Non-trivial: at least 2 different container representations other than the generic map[string]interface{} / []interface{} occur in the case. Distinct: hash of the case.",
 	Gen:  genRepr,
 	Run:  runRepr,
 })
@@ -484,6 +484,37 @@ func overlapping(n *gen.Tree, o OptSet) bool {
 			return true
 		}
 		seen[first] = true
+	}
+	return false
+}
+
+// inlineOverlap reports whether some object of the tree is written as a
+// struct in which a key of an inline member starts with the same segment as a
+// key outside that member (in the order as stated).
+func inlineOverlap(nodes []*gen.Tree, o OptSet) bool {
+	first := func(k string) string {
+		segs := o.split(k)
+		if i, ok := o.index(segs[0], len(segs) > 1); ok {
+			return fmt.Sprint(i)
+		}
+		return segs[0]
+	}
+	for _, n := range nodes {
+		if !asStruct(n) {
+			continue
+		}
+		for _, s := range layoutOf(n) {
+			if s.kind == segFields {
+				continue
+			}
+			for i := s.from; i < s.to; i++ {
+				for j, k := range n.Keys {
+					if (j < s.from || j >= s.to) && first(k) == first(n.Keys[i]) {
+						return true
+					}
+				}
+			}
+		}
 	}
 	return false
 }
@@ -712,6 +743,7 @@ func runFlat(c FlatCase, r *runlog.R) error {
 	o.classes(r.Class)
 	r.ClassIf(capped, "insertion orders capped")
 	r.ClassIf(c.F.K == "list", "top-level list")
+	r.ClassIf(inlineOverlap(nodes, o), "struct: an inline member overlaps a sibling field or member")
 	if c.Planted != "" {
 		r.Class("planted:" + c.Planted)
 	}
@@ -719,7 +751,7 @@ func runFlat(c FlatCase, r *runlog.R) error {
 	return nil
 }
 
-const flatRule = "an option set with a separator (37 separators: \".\", other single characters incl. every regexp and printf metacharacter, blank, comma, multi-character ones such as \"::\" \"->\" \"..\" \"%s\" \".*\", multi-byte runes; plus EnableNumKeys, MaxIdx 0/1/2/5/4000, StructTag with one of 4 tag names, EscapePath, options in either order) and a random tree T over keys {a,b,c,d,0,1} plus keys that hold parts of the separator or other separators and stay whole; every leaf path is cut into dotted groups independently (so any subset of the object edges, and of the list edges as index segments, is written dotted, next to nested spellings of sibling parts), objects are generic maps (1/2), structs (1/4: keys in tags, spread in their stated order over runs of tagged fields and inline members - inline maps of 4 kinds, inline struct, *struct, nested inline struct, interface{} field - so that inline members overlap sibling fields; all fields tagged under 4 tag names of which the selected one carries the keys) or any other representation (interface-keyed and typed maps, pointers, *Config); the spelled input F is the case, with its key insertion orders; run: F as stated plus every insertion order of the keys of every object in which two keys start with the same segment (all n! up to 4 keys, rotations and reversal above, at most 48 inputs; 8 repetitions each in replay mode) under the options must give the tree computed from F by an order-free, representation-free model (split keys at the separator, union, integer segments in [0,MaxIdx] are list indices except single-segment keys under EnableNumKeys), the same normalised hook fingerprint as NewFrom(nested tree), and be stable when fed back. Values are not compared when a node has names next to a list part under EnableNumKeys or beyond MaxIdx."
+const flatRule = "an option set with a separator (37 separators: \".\", other single characters incl. every regexp and printf metacharacter, blank, comma, multi-character ones such as \"::\" \"->\" \"..\" \"%s\" \".*\", multi-byte runes; plus EnableNumKeys, MaxIdx 0/1/2/5/4000, StructTag with one of 4 tag names, EscapePath, options in either order) and a random tree T over keys {a,b,c,d,0,1} plus keys that hold parts of the separator or other separators and stay whole (and, without EscapePath, a bracketed key that is split like any other); every leaf path is cut into dotted groups independently (so any subset of the object edges, and of the list edges as index segments, is written dotted, next to nested spellings of sibling parts), objects are generic maps (1/2), structs (1/4: keys in tags, spread in their stated order over runs of tagged fields and inline members - inline maps of 4 kinds, inline struct, *struct, nested inline struct, interface{} field - so that inline members overlap sibling fields; all fields tagged under 4 tag names of which the selected one carries the keys) or any other representation (interface-keyed and typed maps, pointers, *Config); the spelled input F is the case, with its key insertion orders; run: F as stated plus every insertion order of the keys of every object in which two keys start with the same segment (all n! up to 4 keys, rotations and reversal above, at most 48 inputs; 8 repetitions each in replay mode) under the options must give the tree computed from F by an order-free, representation-free model (split keys at the separator, union, integer segments in [0,MaxIdx] are list indices except single-segment keys under EnableNumKeys), the same normalised hook fingerprint as NewFrom(nested tree), and be stable when fed back. Values are not compared when a node has names next to a list part under EnableNumKeys or beyond MaxIdx."
 
 var subFlat = runlog.Register(&runlog.Sub[FlatCase]{
 	Name: "flatten",
@@ -735,7 +767,7 @@ var subDup = runlog.Register(&runlog.Sub[FlatCase]{
 	Run:  runFlat,
 })
 
-func TestFlatten(t *testing.T)    { subFlat.Check(t, 20000, 800000) }
+func TestFlatten(t *testing.T)    { subFlat.Check(t, 18000, 800000) }
 func TestDuplicates(t *testing.T) { subDup.Check(t, 16000, 500000) }
 
 // ---------------------------------------------------------------------------
